@@ -9,7 +9,9 @@
 //! to start point, orientation only where a negative determinant is involved, points within one unit per
 //! nesting level) and carry the source advance.  The post-processing IR written through Options.ir_dir is
 //! compared with the Coq model (FV.C12.Model.process) by per-case Gallina terms.
-use fontir::orchestration::Flags;
+use fontdrasil::coords::NormalizedLocation;
+use fontir::orchestration::{Flags, WorkId as FeWorkId};
+use fontir::paths::Paths as FePaths;
 use serde_json::{json, Value};
 use skrifa::instance::Size;
 use skrifa::outline::{DrawSettings, OutlinePen};
@@ -90,6 +92,15 @@ impl Src {
                 vec![]
             },
             masters,
+            // a designspace carries the non-export list itself (the UFO libs' public.* keys are ignored then)
+            extra_xml: {
+                let skip: Vec<String> = self.glyphs.iter().filter(|g| !g.export).map(|g| g.name.clone()).collect();
+                if self.pos.len() > 1 && !all_export && !skip.is_empty() {
+                    format!("  <lib><dict><key>public.skipExportGlyphs</key>{}</dict></lib>\n", plist_str_array(&skip))
+                } else {
+                    String::new()
+                }
+            },
             ..Default::default()
         }
     }
@@ -645,6 +656,200 @@ fn observe(bytes: &[u8], src: &Src) -> Result<FontObs, String> {
 }
 
 // ---------------------------------------------------------------------------------------------
+// the IR the compiler leaves behind, and Gallina terms for the model
+// ---------------------------------------------------------------------------------------------
+const FUEL: usize = 1500;
+
+fn norm_loc(src: &Src, k: usize) -> NormalizedLocation {
+    if src.pos.len() == 1 {
+        return NormalizedLocation::new();
+    }
+    let (p, d) = (src.pos[k], src.axis_default);
+    let v = if p == d { 0.0 } else if p > d { (p - d) / (1000.0 - d) } else { -(d - p) / d };
+    NormalizedLocation::for_pos(&[("wght", v)])
+}
+
+/// closed subpaths of an IR path as cyclic point lists (the closing point is not repeated)
+fn ir_points(path: &kurbo::BezPath, out: &mut Vec<Vec<(f64, f64)>>) {
+    let mut cur: Vec<(f64, f64)> = Vec::new();
+    let mut flush = |cur: &mut Vec<(f64, f64)>, out: &mut Vec<Vec<(f64, f64)>>| {
+        if cur.is_empty() {
+            return;
+        }
+        if cur.len() > 1 && cur[0] == cur[cur.len() - 1] {
+            cur.pop();
+        }
+        out.push(std::mem::take(cur));
+    };
+    for el in path.elements() {
+        match el {
+            kurbo::PathEl::MoveTo(p) => {
+                flush(&mut cur, out);
+                cur.push((p.x, p.y));
+            }
+            kurbo::PathEl::LineTo(p) => cur.push((p.x, p.y)),
+            kurbo::PathEl::QuadTo(c, p) => {
+                cur.push((c.x, c.y));
+                cur.push((p.x, p.y));
+            }
+            kurbo::PathEl::CurveTo(a, b, p) => {
+                cur.push((a.x, a.y));
+                cur.push((b.x, b.y));
+                cur.push((p.x, p.y));
+            }
+            kurbo::PathEl::ClosePath => flush(&mut cur, out),
+        }
+    }
+    flush(&mut cur, out);
+}
+
+struct IrGlyph {
+    name: String,
+    contours: Vec<Vec<(f64, f64)>>,
+    comps: Vec<(String, [f64; 6])>,
+    adv: f64,
+}
+
+fn read_ir(ir_dir: &std::path::Path, src: &Src, k: usize) -> Result<Vec<IrGlyph>, String> {
+    let f = FePaths::target_file(ir_dir, &FeWorkId::GlyphOrder);
+    let order: fontir::ir::GlyphOrder = serde_yaml::from_reader(std::fs::File::open(&f).map_err(|e| format!("{f:?}: {e}"))?).map_err(|e| format!("{f:?}: {e}"))?;
+    let loc = norm_loc(src, k);
+    let mut out = Vec::new();
+    for name in order.names() {
+        if name.as_str() == ".notdef" {
+            continue;
+        }
+        let f = FePaths::target_file(ir_dir, &FeWorkId::Glyph(name.clone()));
+        let g: fontir::ir::Glyph = serde_yaml::from_reader(std::fs::File::open(&f).map_err(|e| format!("{f:?}: {e}"))?).map_err(|e| format!("{f:?}: {e}"))?;
+        let Some(inst) = g.sources().get(&loc) else {
+            return Err(format!("IR glyph {name} has no instance at {loc:?} (has {:?})", g.sources().keys().collect::<Vec<_>>()));
+        };
+        let mut contours = Vec::new();
+        for c in &inst.contours {
+            ir_points(c, &mut contours);
+        }
+        out.push(IrGlyph {
+            name: name.to_string(),
+            contours,
+            comps: inst.components.iter().map(|c| (c.base.to_string(), c.transform.as_coeffs())).collect(),
+            adv: inst.width,
+        });
+    }
+    Ok(out)
+}
+
+fn coq_qr(x: f64) -> String {
+    let (n, d) = f64_to_ratio(x);
+    if n < 0 { format!("(qr ({}) {})", n, d) } else { format!("(qr {} {})", n, d) }
+}
+fn coq_name(src: &Src, n: &str) -> String {
+    if let Some(i) = src.glyphs.iter().position(|g| g.name == n) {
+        return format!("(Src {})", i);
+    }
+    if let Some((b, k)) = n.rsplit_once('.') {
+        if let (Some(i), Ok(k)) = (src.glyphs.iter().position(|g| g.name == b), k.parse::<usize>()) {
+            return format!("(Der {} {})", i, k);
+        }
+    }
+    // a name the model cannot produce
+    "(Der 999999 0)".to_string()
+}
+/// numbers over one common power-of-two denominator: (denominator, numerators)
+fn common_den(vals: &[f64]) -> Option<(u128, Vec<i128>)> {
+    let r: Vec<(i128, u128)> = vals.iter().map(|v| f64_to_ratio(*v)).collect();
+    let d = r.iter().map(|x| x.1).max().unwrap_or(1);
+    let mut out = Vec::new();
+    for (n, dn) in r {
+        let k = d / dn; // both are powers of two
+        out.push(n.checked_mul(k as i128)?);
+    }
+    Some((d, out))
+}
+fn coq_zi(n: i128) -> String {
+    if n < 0 { format!("({})", n) } else { n.to_string() }
+}
+fn coq_pts(c: &[(f64, f64)]) -> String {
+    let flat: Vec<f64> = c.iter().flat_map(|p| [p.0, p.1]).collect();
+    match common_den(&flat) {
+        Some((d, ns)) => format!("(pts {} [{}]%Z)", d, ns.iter().map(|n| n.to_string()).collect::<Vec<_>>().join(";")),
+        None => coq_list(c, |p| format!("({}, {})", coq_qr(p.0), coq_qr(p.1))),
+    }
+}
+/// IR contour as one hexadecimal number (see FV.C12.Model.ptsP); falls back to exact fractions
+fn coq_pts_packed(c: &[(f64, f64)]) -> String {
+    let mut digits: Vec<String> = Vec::new();
+    for v in c.iter().flat_map(|p| [p.0, p.1]) {
+        let r = (v * 16777216.0).round();
+        if !(r.abs() < 1.0e14) {
+            return coq_pts(c);
+        }
+        digits.push(format!("{:012x}", (r as i64 + (1i64 << 47)) as u64));
+    }
+    digits.reverse();
+    format!("(ptsP {} 0x{})", c.len(), digits.concat())
+}
+fn coq_aff(t: &[f64; 6], vary: bool) -> String {
+    match common_den(t) {
+        Some((d, ns)) => format!("(A6 {} {} {} {} {} {} {} {})", d, coq_zi(ns[0]), coq_zi(ns[1]), coq_zi(ns[2]), coq_zi(ns[3]), coq_zi(ns[4]), coq_zi(ns[5]), coq_bool(vary)),
+        None => format!("(mkAff {} {} {} {} {} {} {})", coq_qr(t[0]), coq_qr(t[1]), coq_qr(t[2]), coq_qr(t[3]), coq_qr(t[4]), coq_qr(t[5]), coq_bool(vary)),
+    }
+}
+/// does the 2x2 of component j of glyph g differ between masters?
+fn varies(g: &G, j: usize) -> bool {
+    g.m.iter().any(|m| m.xf[j][..4] != g.m[0].xf[j][..4])
+}
+fn coq_font(src: &Src, k: usize) -> String {
+    let gl: Vec<String> = src
+        .glyphs
+        .iter()
+        .enumerate()
+        .map(|(i, g)| {
+            let m = &g.m[k];
+            let cs = coq_list(&m.contours, |c| coq_pts(&explicit(c).iter().map(|p| (p.x, p.y)).collect::<Vec<_>>()));
+            let comps: Vec<String> = g.bases.iter().enumerate().map(|(j, b)| format!("({}, {})", coq_name(src, b), coq_aff(&m.xf[j], varies(g, j)))).collect();
+            format!("((Src {}), G {} [{}] {} {})", i, cs, comps.join("; "), coq_q(m.adv), coq_bool(g.export))
+        })
+        .collect();
+    format!("(font_of [{}])", gl.join("; "))
+}
+fn coq_ir(src: &Src, ir: &[IrGlyph]) -> (String, String) {
+    let order = coq_list(ir, |g| coq_name(src, &g.name));
+    // all points when the whole outcome is small, fingerprints of the contour lists otherwise
+    let coords: usize = ir.iter().map(|g| g.contours.iter().map(|c| 2 * c.len()).sum::<usize>()).sum();
+    let full = coords <= 240;
+    let gl = coq_list(ir, |g| {
+        // in the IR a transform carries no "varies" mark; after processing no varying component is left
+        let comps: Vec<String> = g.comps.iter().map(|(b, t)| format!("({}, {})", coq_name(src, b), coq_aff(t, false))).collect();
+        if full {
+            format!("(IRfull {} {} [{}] {})", coq_name(src, &g.name), coq_list(&g.contours, |c| coq_pts_packed(c)), comps.join("; "), coq_q(g.adv))
+        } else {
+            let lens: Vec<String> = g.contours.iter().map(|c| c.len().to_string()).collect();
+            let (mut sx, mut sy, mut ar) = (0.0f64, 0.0f64, 0.0f64);
+            for c in &g.contours {
+                let n = c.len();
+                for i in 0..n {
+                    let (p, q) = (c[i], c[(i + 1) % n]);
+                    sx += p.0;
+                    sy += p.1;
+                    ar += p.0 * q.1 - q.0 * p.1;
+                }
+            }
+            format!("(IRfp {} [{}]%nat {} {} {} [{}] {})", coq_name(src, &g.name), lens.join(";"), coq_qr(sx), coq_qr(sy), coq_qr(ar), comps.join("; "), coq_q(g.adv))
+        }
+    });
+    (order, gl)
+}
+fn tree_size(src: &Src, n: &str, fuel: usize) -> usize {
+    if fuel == 0 {
+        return 1;
+    }
+    match src.g(n) {
+        None => 1,
+        Some(g) => 1 + g.bases.iter().map(|b| tree_size(src, b, fuel - 1)).sum::<usize>(),
+    }
+}
+
+// ---------------------------------------------------------------------------------------------
 // one source: all variants
 // ---------------------------------------------------------------------------------------------
 const OPTS: [(Flags, &str); 4] = [
@@ -717,6 +922,8 @@ fn run_source(src: &Src, with_model: bool) -> Vec<Value> {
     let mut builds = 0usize;
     let mut comparisons = 0usize;
     let mut seen_keys: std::collections::HashSet<String> = Default::default();
+    // per master: (mask, IR glyph order, IR glyphs, some glyph lost contours)
+    let mut model_runs: Vec<Vec<(usize, String, String, bool)>> = vec![Vec::new(); nm];
     for all_export in [false, true] {
         if all_export && !has_nonexport {
             continue;
@@ -755,6 +962,7 @@ fn run_source(src: &Src, with_model: bool) -> Vec<Value> {
                     continue;
                 }
             };
+            let mut lost = vec![false; nm];
             for g in &exported {
                 let Some(drawn) = obs.glyphs.get(&g.name) else {
                     if seen_keys.insert(format!("missing:{}", g.name)) {
@@ -779,6 +987,9 @@ fn run_source(src: &Src, with_model: bool) -> Vec<Value> {
                     match match_contours(r, &d.contours, true) {
                         None => {
                             // structure differs: count, point count, on/off pattern or orientation
+                            if d.contours.len() < r.len() {
+                                lost[k] = true;
+                            }
                             let loose = match_contours(r, &d.contours, false);
                             let (key, what) = if r.len() != d.contours.len() {
                                 if flags.contains(Flags::DECOMPOSE_COMPONENTS) || true {
@@ -820,7 +1031,52 @@ fn run_source(src: &Src, with_model: bool) -> Vec<Value> {
                     }
                 }
             }
+            if let Some(d) = &ir_dir {
+                for k in 0..nm {
+                    match read_ir(d, src, k) {
+                        Ok(ir) => {
+                            let (o, g) = coq_ir(src, &ir);
+                            model_runs[k].push((mask, o, g, lost[k]));
+                        }
+                        Err(e) => {
+                            if seen_keys.insert("ir".into()) {
+                                viol(&mut out, "ir-unreadable", format!("source {} options [{variant}]: {e}", src.id), json!({"variant": variant}));
+                            }
+                        }
+                    }
+                }
+            }
         }
+    }
+    // model cases: one per master location, all option subsets that built
+    for k in 0..nm {
+        if model_runs[k].is_empty() {
+            continue;
+        }
+        let all = coq_list(&src.glyphs, |g| coq_name(src, &g.name));
+        let ord = coq_list(&src.order, |n| coq_name(src, n));
+        let fl = |mask: usize| format!("(mkFlags {} {} {} {})", coq_bool(mask & 1 != 0), coq_bool(mask & 2 != 0), coq_bool(mask & 4 != 0), coq_bool(mask & 8 != 0));
+        // option subsets that left the same IR share one expected value
+        let mut groups: Vec<(Vec<usize>, &String, &String, bool)> = Vec::new();
+        for (mask, o, g, lost) in &model_runs[k] {
+            match groups.iter_mut().find(|x| x.1 == o && x.2 == g && x.3 == *lost) {
+                Some(x) => x.0.push(*mask),
+                None => groups.push((vec![*mask], o, g, *lost)),
+            }
+        }
+        let checks: Vec<String> = groups
+            .iter()
+            .map(|(masks, o, g, lost)| format!("check_runs {FUEL} [{}] F all ord {} {} {}", masks.iter().map(|m| fl(*m)).collect::<Vec<_>>().join("; "), o, g, coq_bool(*lost)))
+            .collect();
+        let coq = format!("let F := {} in let all := {} in let ord := {} in ({})", coq_font(src, k), all, ord, checks.join(") && ("));
+        let show = format!("let F := {} in let all := {} in let ord := {} in map (fun fl => show_run {FUEL} fl F all ord) [{}]", coq_font(src, k), all, ord,
+                           model_runs[k].iter().map(|r| fl(r.0)).collect::<Vec<_>>().join("; "));
+        let lossy = format!("let F := {} in let all := {} in let ord := {} in existsb (fun fl => lossy_run {FUEL} fl F all ord) [{}]", coq_font(src, k), all, ord,
+                            (0..16).map(fl).collect::<Vec<_>>().join("; "));
+        let maxdepth = src.glyphs.iter().map(|g| src.depth(&g.name)).max().unwrap_or(0);
+        out.push(json!({"type":"case","kind":src.kind,"coq":coq,"show":show,"lossy_term":lossy,"nontrivial": maxdepth >= 1,
+                        "sig": format!("s{}m{}", src.id, k), "source_id": src.id, "master": k, "option_subsets": model_runs[k].len(),
+                        "impl_lost_contours": model_runs[k].iter().any(|r| r.3), "max_depth": maxdepth, "distinct_ir_outcomes": groups.len()}));
     }
     out.push(json!({"type":"srcstat","builds":builds,"comparisons":comparisons,"stats":stats}));
     out
@@ -842,7 +1098,14 @@ fn main() {
     let mut srcs = fixed_sources();
     let k = srcs.len();
     for i in k..n.max(k) {
-        srcs.push(gen_src(&mut rng, i));
+        // keep the unfolded component tree small enough for the model's fuel
+        loop {
+            let s = gen_src(&mut rng, i);
+            if s.glyphs.iter().map(|g| tree_size(&s, &g.name, 12)).max().unwrap_or(0) <= 250 {
+                srcs.push(s);
+                break;
+            }
+        }
     }
     let n = srcs.len();
     let chunks: Vec<Vec<&Src>> = (0..threads).map(|t| srcs.iter().skip(t).step_by(threads).collect()).collect();
@@ -859,6 +1122,7 @@ fn main() {
     let mut dist: BTreeMap<String, usize> = BTreeMap::new();
     let mut maxd: BTreeMap<String, f64> = BTreeMap::new();
     let (mut builds, mut comparisons) = (0usize, 0usize);
+    let mut next_id = 0usize;
     for (s, lines) in srcs.iter().zip(slots.into_iter()) {
         *dist.entry(format!("kind:{}", s.kind.split(':').next().unwrap_or(""))).or_default() += 1;
         *dist.entry(format!("masters:{}", s.pos.len())).or_default() += 1;
@@ -883,6 +1147,11 @@ fn main() {
                     }
                 }
                 continue;
+            }
+            let mut l = l;
+            if l["type"] == "case" {
+                l["id"] = json!(next_id);
+                next_id += 1;
             }
             emit(l);
         }
